@@ -100,7 +100,9 @@ fn passwords(i: usize) -> (Password, Password) {
     let long = "x".repeat(300);
     let very_long = "y".repeat(1100);
     let very_long_other = format!("{}z", &very_long[..1099]); // differs only beyond octet 1016 (= 1024 - salt)
-    match i % 5 {
+    match i % 6 {
+        // 8-bit passwords are octet strings: two that differ only in an octet that is not valid UTF-8 are different passwords
+        5 => (Password::from(&[b's', 0xfc, b'l', 0xe4, 0xff][..]), Password::from(&[b's', 0xfd, b'l', 0xe4, 0xff][..])),
         4 => (very_long.as_str().into(), very_long_other.as_str().into()),
         0 => ("correct horse".into(), "correct horsf".into()),
         1 => ("".into(), " ".into()),
@@ -207,7 +209,7 @@ pub fn run(cases_path: &str, out_path: &str, tier: &str, seed: u64) {
                     _ => unreachable!(),
                 };
                 let (pw, other) = passwords(pi);
-                LONG_PW.with(|c| c.set(pi % 5 == 4));
+                LONG_PW.with(|c| c.set(pi % 6 == 4));
                 let pick = |name: &str| if name == "pw" { &pw } else { &other };
                 let mut cur = orig.clone();
                 let mut broken: Option<String> = None;
